@@ -56,6 +56,12 @@ Severity SDAI_Binary::STEPread(istream &in, ErrorDescriptor *err) { g_br_calls++
 Severity CheckRemainingInput(istream &, ErrorDescriptor *e, const char *, const char *d) { g_cri_calls++; g_cri_err = e; g_cri_delims = d; e->GreaterSeverity((Severity)g_cri_sev); return e->severity(); }
 namespace std { istringstream::istringstream(const char *) { _m_state = 0; _m_have = 0; _m_consumed = 0; } }   /* the text is irrelevant here: the value reader is a contract stub */
 #include "binnode_extract.inc"
+/* contract stubs of the token readers (unit read_func_cc) */
+static int g_rd_ok, g_rd_sev, g_rd_calls; static long g_rd_int; static double g_rd_real; static const char *g_rd_delims; static istream *g_rd_in;
+int ReadInteger(SDAI_Integer &v, istream &in, ErrorDescriptor *err, const char *d) { g_rd_calls++; g_rd_delims = d; g_rd_in = &in; if (g_rd_ok) { v = g_rd_int; return 1; } err->GreaterSeverity((Severity)g_rd_sev); return 0; }
+int ReadReal(SDAI_Real &v, istream &in, ErrorDescriptor *err, const char *d) { g_rd_calls++; g_rd_delims = d; g_rd_in = &in; if (g_rd_ok) { v = g_rd_real; return 1; } err->GreaterSeverity((Severity)g_rd_sev); return 0; }
+#include "intnode_read_extract.inc"
+#include "realnode_read_extract.inc"
 #undef sprintf
 #undef snprintf
 #undef private
@@ -167,4 +173,29 @@ extern "C" void h_BinaryNode()
     int worst = in_rsev < in_csev ? in_rsev : in_csev;
     __CPROVER_assert(g_br_calls == 1 && g_br_err == &e2 && g_cri_calls == 1 && g_cri_err == &e2, "the string-form reader reads the value and then checks the rest of the input, both with the caller's descriptor");
     __CPROVER_assert(sv2 == e2._severity && (int)sv2 == worst, "C03 the string-form reader returns the worse of what the value reader and the trailing-input check reported");
+}
+
+/* C09 / C03: an INTEGER or REAL element of an aggregate takes exactly the value its token converts to; a token that is no number leaves
+ * the element unset, and what the token reader reported is what the element reader returns; the aggregate's delimiters are handed on */
+extern "C" void h_number_node_readers()
+{
+    IN(int, in_which); IN(int, in_ok); IN(int, in_sev); IN(long, in_ival); IN(double, in_rval); IN(long, in_oldi); IN(double, in_oldr);
+    __CPROVER_assume(in_which >= 0 && in_which < 4);
+    __CPROVER_assume(in_sev == SEVERITY_WARNING || in_sev == SEVERITY_INPUT_ERROR || in_sev == SEVERITY_INCOMPLETE);
+    g_rd_ok = in_ok != 0; g_rd_sev = in_sev; g_rd_int = in_ival; g_rd_real = in_rval; g_rd_calls = 0;
+    istream in; in._m_state = 0; in._m_have = 0; in._m_consumed = 0; g_stream_arbitrary = 1;
+    ErrorDescriptor err;
+    if (in_which < 2) {
+        IntNode *n = (IntNode *)malloc(sizeof(IntNode)); n->value = in_oldi; n->_null = 1;
+        Severity sv = in_which == 0 ? n->IntNode::STEPread(in, &err) : n->IntNode::StrToVal(in, &err);
+        if (in_ok) __CPROVER_assert(n->value == in_ival && n->_null == 0 && sv == SEVERITY_NULL, "C09 an INTEGER element takes exactly the value its token converts to");
+        else __CPROVER_assert(n->value == S_INT_NULL && n->_null == 1 && sv == err.severity() && (int)sv <= in_sev, "C03 a token that is no integer leaves the element unset and the reader's report is returned");
+    } else {
+        RealNode *n = (RealNode *)malloc(sizeof(RealNode)); n->value = in_oldr; n->_null = 1;
+        Severity sv = in_which == 2 ? n->RealNode::STEPread(in, &err) : n->RealNode::StrToVal(in, &err);
+        SDAI_Real z = S_REAL_NULL;
+        if (in_ok) __CPROVER_assert((n->value == in_rval || in_rval != in_rval) && n->_null == 0 && sv == SEVERITY_NULL, "C09 a REAL element takes exactly the value its token converts to");
+        else __CPROVER_assert(memcmp(&n->value, &z, sizeof z) == 0 && n->_null == 1 && sv == err.severity() && (int)sv <= in_sev, "C03 a token that is no real leaves the element unset and the reader's report is returned");
+    }
+    __CPROVER_assert(g_rd_calls == 1 && g_rd_in == &in && g_rd_delims[0] == ',' && g_rd_delims[1] == ')' && g_rd_delims[2] == 0, "the element's token is read once from the caller's stream, up to the aggregate's delimiters");
 }
